@@ -82,7 +82,7 @@ def rtail (old : RState) (s : Remote) : String :=
 def adv (old : RState) (s : Remote) (head : String) : RState × String :=
   ({ s := s, seen := s.frames.length }, s!"{head} {rtail old s}")
 
-def newcidStr (st : RState) (fixed : Bool) (seq rpt : Nat) (cid : Cid) : RState × String :=
+def newcidStr (st : RState) (fixed : Remote.Tree) (seq rpt : Nat) (cid : Cid) : RState × String :=
   match st.s.recvNewCid fixed seq rpt cid with
   | .errLimit s => adv st s "err CIL"
   | .discarded => adv st st.s "none"
@@ -110,11 +110,16 @@ def stepR (st : RState) (op obs : List String) : RState × Option String :=
   | ["newcid", q, r, c] =>
     match q.toNat?, r.toNat?, parseCid c with
     | some q, some r, some c =>
-      let a := newcidStr st false q r c
+      -- the three `recv_new_cid_frame`s (pinned / + active-id count / count only): follow the one the implementation shows;
+      -- which behaviour is right is judged by the monitors, which know only the RFC
+      let a := newcidStr st .pinned q r c
       if a.2 == theirs then (a.1, none)
       else
-        let b := newcidStr st true q r c
-        if b.2 == theirs then (b.1, none) else (a.1, some s!"{a.2} | fixed: {b.2}")
+        let b := newcidStr st .counted q r c
+        if b.2 == theirs then (b.1, none)
+        else
+          let e := newcidStr st .exact q r c
+          if e.2 == theirs then (e.1, none) else (b.1, some s!"{a.2} | counted: {b.2} | exact: {e.2}")
     | _, _, _ => (st, some "BAD newcid")
   | ["borrow", i] =>
     match i.toNat? with
